@@ -1,6 +1,7 @@
 import TaskctlVerif.Proofs.Sched
 import TaskctlVerif.Proofs.SchedFair
 import TaskctlVerif.Props.C01
+import TaskctlVerif.Proofs.SchedLoopsAgree
 /-!
 # C02 — a failure cancels exactly its dependants; the outcome does not depend on timing
 
@@ -393,3 +394,40 @@ example : Settled (trun exT tinit exTRun [1, 1]) 1 ∧ Settled (trun exT tinit e
   unfold Settled; decide
 
 end Sched
+
+/-! ## Several loops over one graph (`Model/SchedLoops.lean`) -/
+namespace SchedLoops
+open Sched
+
+def LSettled (σ : LSt) (s : Nat) : Prop :=
+  σ.status s ≠ .waiting ∧ σ.status s ≠ .running ∧ σ.g s ≠ .afterErr
+
+/-- **C02 with several loops over one graph**: a pipeline included by several stages that run
+together is examined by several loops at once; under every interleaving of all their reads, writes
+and compare-and-swaps with the stage goroutines, a settled stage has the status the final-status
+equations prescribe (any solution `f`): what the shared pipeline ends as - and hence the error every
+including stage reports - does not depend on which loop got where first. -/
+theorem C02_loops_settled (c okf f) (hf : IsFinal c okf f) (hne : ∀ s, c.cond s ≠ .err)
+    (as : List LAct) (has : ∀ a ∈ as, LRespects okf a) (s : Nat)
+    (hs : LSettled (lrun c linit as) s) : (lrun c linit as).status s = f s := by
+  obtain ⟨hi, h⟩ := lagree_run c okf f hf hne as has
+  obtain ⟨g_none, g_run, run_g, g_after, g_fin, started, skip_c, err_c, chk⟩ := hi
+  obtain ⟨a1, a2, a3, a4, a5, a6⟩ := h
+  have := lgcases (lrun c linit as) s
+  unfold LSettled at hs
+  grind
+
+/-- two runs of the shared pipeline with the same task outcomes agree on every stage that is settled
+in both, however many loops worked on it and in whatever order -/
+theorem C02_loops_deterministic (c okf f) (hf : IsFinal c okf f) (hne : ∀ s, c.cond s ≠ .err)
+    (as bs : List LAct) (has : ∀ a ∈ as, LRespects okf a) (hbs : ∀ a ∈ bs, LRespects okf a) (s : Nat)
+    (ha : LSettled (lrun c linit as) s) (hb : LSettled (lrun c linit bs) s) :
+    (lrun c linit as).status s = (lrun c linit bs).status s := by
+  rw [C02_loops_settled c okf f hf hne as has s ha, C02_loops_settled c okf f hf hne bs hbs s hb]
+
+-- the run of `exLoops` (C01): stage 0 is settled and done, as `final` says
+example : LSettled (lrun Sched.exCfg linit exLoops) 0 ∧ (lrun Sched.exCfg linit exLoops).status 0 = .done := by
+  unfold LSettled; decide
+
+end SchedLoops
+
